@@ -6,7 +6,7 @@ SPEC = {
         {"name": "c18conc", "pkg": "./zz_verif/c18", "run": "^TestC18Concurrent$", "race": True, "shards": {"quick": 1, "thorough": 4}},
     ],
     "rule": "protocol runs: case = (pool key, variant (4 RSABSSA variants) or partially-blind hash in {SHA-256,384,512}, message, metadata, preparation prefix, PSS salt, two blinding factors, 3 alterations of the blind signature, 2 out-of-range signer inputs, then 1 (blindrsa) or 2-3 (partially blind) further protocol rounds on the same Client/Signer/Verifier objects, the partially blind ones with one metadata buffer overwritten in place between rounds: same length, other length, an earlier value again) drawn by rapid; "
-            "keys: 1024/1025/1536/2048/2049/3072/4096-bit two-prime keys and 1024/1025/1536/2048/2049/3072-bit safe-prime keys (1025 and 2049: emBits a multiple of 8). "
+            "keys: public exponent 65537 and, for five of the keys, the same primes with e = 3, 17, 257; 1024/1025/1536/2048/2049/3072/4096-bit two-prime keys and 1024/1025/1536/2048/2049/3072-bit safe-prime keys (1025 and 2049: emBits a multiple of 8). "
             "verifier equivalence: case = (key, variant / hash and metadata, message, crafted signature) where the signature is valid or malformed at the encoded-message level "
             "(salt length, trailer, top bits, non-zero PS, separator, H, other message, representative longer than emLen) and signed with the private exponent, or malformed at the byte level (s+N, bit flips, 0, 1, N-1, N, N+1, length, random). "
             "partially blind metadata lengths include 0, <= 64 and 255, 256, 257, 65535, 65536, 65537, 70196 bytes. concurrent sub-check (also built with -race): 8 goroutines behind a barrier run complete protocol rounds on ONE Client, ONE Verifier and ONE Signer (all 4 variants; partially blind: ONE Verifier, ONE Signer), every result checked as in the sequential case and compared byte for byte with the signature obtained alone on fresh objects. "
@@ -29,6 +29,6 @@ MANIFEST = {
             "two runs that differ only in the blinding factor must give byte-identical signatures; Finalize must refuse every altered blind signature (bit flips, 0, 1, N-1, N, N+1, +1, wrong lengths, random); BlindSign must refuse every input >= N or of wrong length; further rounds on the same Signer/Client/Verifier objects (metadata buffer reused and overwritten in place) must finalise and verify under the reference with the metadata of that round; "
             "and the library verifier must agree with crypto/rsa.VerifyPSS (reference for derived keys) on valid pairs and on pairs malformed in each field of the EMSA-PSS encoding or at the byte level. "
             "Exploration is the right level: the claim is a differential one over all keys, salts and malformed signatures, each case has an exact oracle.",
-    "note": "the concurrent sub-check runs in the ordinary and in a -race binary (c18conc); trusts crypto/rsa, math/big, x/crypto/hkdf; key pool is fixed (committed PEM files), e = 65537; partially blind keys are restricted to modulus sizes for which the draft's byte-oriented exponent derivation and circl's bit-oriented one coincide (bit length = 0 or 1 mod 16); "
+    "note": "the concurrent sub-check runs in the ordinary and in a -race binary (c18conc); trusts crypto/rsa, math/big, x/crypto/hkdf; key pool is fixed (committed PEM files; e = 65537, plus e = 3/17/257 variants built in the harness from the same primes and validated by crypto/rsa); partially blind keys are restricted to modulus sizes for which the draft's byte-oriented exponent derivation and circl's bit-oriented one coincide (bit length = 0 or 1 mod 16); "
             "partiallyblindrsa.Blind draws its salt from crypto/rand regardless of the reader passed, so determinism relations use FixedBlind; never establishes absence",
 }
